@@ -418,8 +418,20 @@ func checkConstRange(c *Ctx) {
 				return false
 			}
 			base, off := LinOff(ia.Index)
+			if off != -1 {
+				return false
+			}
+			// bs[w-1]: the slice was made with w bytes
+			if p, isP := Unwrap(base).(*ssa.Parameter); isP && TypeNameIs(p.Type(), "pkg/expr.Width") {
+				return true
+			}
+			if cv, isCv := base.(*ssa.Convert); isCv {
+				if p, isP := Unwrap(cv.X).(*ssa.Parameter); isP && TypeNameIs(p.Type(), "pkg/expr.Width") {
+					return true
+				}
+			}
 			call, isCall := base.(*ssa.Call)
-			if !isCall || off != -1 {
+			if !isCall {
 				return false
 			}
 			bi, isBi := call.Call.Value.(*ssa.Builtin)
@@ -437,6 +449,10 @@ func checkConstRange(c *Ctx) {
 					}
 					if isTop(v) {
 						return top, true
+					}
+					// the width itself: the table is for w = 4
+					if p, ok := v.(*ssa.Parameter); ok && p.Parent() == fn && TypeNameIs(p.Type(), "pkg/expr.Width") {
+						return 4, true
 					}
 					// len(bs) of the w-byte slice: the table is for w >= 1
 					if call, ok := v.(*ssa.Call); ok {
